@@ -49,14 +49,21 @@ def gen_text(rng, n, nul_ok=True):
     return Payload(bytes(out))
 
 
+def rand_bytes(rng, n, nul_ok=True):
+    b = rng.randbytes(n)
+    if not nul_ok and b"\0" in b:
+        b = b.replace(b"\0", bytes([rng.randrange(1, 256)]))
+    return b
+
+
 def gen_binary(rng, n, nul_ok=True):
     if n > BIGPIECE:
-        pat = bytes(rng.randrange(0 if nul_ok else 1, 256) for _ in range(rng.choice((4, 64, 256, 4096))))
+        pat = rand_bytes(rng, rng.choice((4, 64, 256, 4096)), nul_ok)
         return Payload(rep(pat, n), pat)
     r = rng.random()
     if r < 0.1:
         return Payload(bytes([rng.randrange(0 if nul_ok else 1, 256)]) * n)
-    return Payload(bytes(rng.randrange(0 if nul_ok else 1, 256) for _ in range(n)))
+    return Payload(rand_bytes(rng, n, nul_ok))
 
 
 def pick_len(rng, tier, small=False):
@@ -99,7 +106,7 @@ def mk_frame(rng, opcode, payload, fin=True, masked=None, lenform=None, rsv=0, n
         masked = rng.random() < 0.85
     mask = None
     if masked:
-        mask = rng.choice((b"\0\0\0\0", b"\xff\xff\xff\xff")) if rng.random() < 0.05 else bytes(rng.randrange(256) for _ in range(4))
+        mask = rng.choice((b"\0\0\0\0", b"\xff\xff\xff\xff")) if rng.random() < 0.05 else rng.randbytes(4)
     if lenform is None:
         lenform = W.minimal_lenform(n)
         if nonminimal_ok and rng.random() < 0.12:
@@ -119,7 +126,7 @@ def mk_frame(rng, opcode, payload, fin=True, masked=None, lenform=None, rsv=0, n
 def mk_header_only(rng, opcode, declared, masked=True, fin=True):
     """a frame header that declares `declared` bytes (above the limit); no payload follows"""
     f = FrameSpec()
-    mask = bytes(rng.randrange(256) for _ in range(4)) if masked else None
+    mask = rng.randbytes(4) if masked else None
     f.opcode, f.fin, f.rsv, f.mask, f.lenform, f.payload, f.declared = opcode, fin, 0, mask, 64, None, declared
     f.hdr = W.encode_header(opcode, declared, fin, mask, 64, 0)
     f.wire_payload = Payload(b"")
@@ -241,7 +248,7 @@ def _trailing(rng, tier, s, small=True):
         for _ in range(rng.randrange(1, 4)):
             s.add(_data_frame(rng, tier, small=small))
     elif r < 0.9:
-        s.tail = bytes(rng.randrange(256) for _ in range(rng.randrange(1, 40)))
+        s.tail = rng.randbytes(rng.randrange(1, 40))
     else:
         s.add(_data_frame(rng, tier, small=small))
         s.add(_close_frame(rng))
@@ -421,32 +428,28 @@ def upgrade_request(key, rng=None, plain=False):
     return b"GET " + rng.choice((b"/ws", b"/", b"/chat?x=1")) + b" HTTP/1.1\r\n" + b"\r\n".join([first] + rest) + b"\r\n\r\n"
 
 
+_KEY_TABLES = (
+    bytes(0x20 + i % 95 for i in range(256)),                                                   # printable ASCII
+    bytes((0x80 + i % 128) if i < 77 else 0x09 if i < 85 else 0x20 + i % 95 for i in range(256)),  # + obs-text, HTAB
+    bytes(i if i not in (0, 10, 13) else 0x41 for i in range(256)),                             # anything but NUL CR LF
+)
+
+
 def gen_key(rng, tier, idx):
     """-> (key bytes, class).  Keys never start/end with SP/HTAB and never contain CR, LF or NUL
     (those are not part of a header field value)."""
     r = rng.random()
 
-    def body(n, pool):
+    def body(n, table):
         if n == 0:
             return b""
-        b = bytearray(pool() for _ in range(n))
+        b = bytearray(rng.randbytes(n).translate(table))
         for i in (0, n - 1):
             while b[i] in (0x20, 0x09):
                 b[i] = rng.randrange(0x21, 0x7f)
         return bytes(b)
 
-    def printable():
-        return rng.randrange(0x20, 0x7f)
-
-    def vchar_obs():
-        x = rng.random()
-        return rng.randrange(0x80, 0x100) if x < 0.3 else 0x09 if x < 0.33 else rng.randrange(0x20, 0x7f)
-
-    def anybyte():
-        while True:
-            c = rng.randrange(1, 256)
-            if c not in (0x0d, 0x0a):
-                return c
+    printable, vchar_obs, anybyte = _KEY_TABLES
 
     if r < 0.15:
         return std_key(rng), "b64"
